@@ -124,7 +124,7 @@ pub struct RefOut {
 }
 
 impl RefOut {
-    fn start(i: &RefIn) -> RefOut {
+    pub fn start(i: &RefIn) -> RefOut {
         RefOut {
             class: Class::Ok,
             er: i.er,
